@@ -81,6 +81,9 @@ class Spec:
                     bench_env=self.bench_env)
 
 
+RUNS_LEVEL = None      # optional top-level `runs:` settings (e.g. parallel_interference_factor) added to every configuration
+
+
 def raw_config(specs):
     executors, suites = {}, {}
     for s in specs:
@@ -107,8 +110,11 @@ def raw_config(specs):
         l = by_exe.setdefault("E_" + s.exe, [])
         if s.suite not in l:
             l.append(s.suite)
-    return {"executors": executors, "benchmark_suites": suites,
-            "experiments": {"X": {"executions": [{e: {"suites": ss}} for e, ss in by_exe.items()]}}}
+    cfg = {"executors": executors, "benchmark_suites": suites,
+           "experiments": {"X": {"executions": [{e: {"suites": ss}} for e, ss in by_exe.items()]}}}
+    if RUNS_LEVEL:
+        cfg["runs"] = dict(RUNS_LEVEL)
+    return cfg
 
 
 class Obs:
